@@ -741,7 +741,17 @@ class FaultyServer(asyncssh.SFTPServer):
     def stat(self, path):
         base = os.path.basename(path)
         if base.startswith(b'errno_'):
-            n = ERRNO[base[6:].decode()]
+            shape = base[6:].decode()
+            if shape == 'NOERRNO':
+                raise OSError('no errno, no strerror')
+            if shape == 'UNSUPPORTED':
+                import io
+                raise io.UnsupportedOperation('not readable')
+            if shape == 'EIO_NOMSG':
+                raise OSError(errno.EIO, None)
+            if shape == 'NOARGS':
+                raise OSError()
+            n = ERRNO[shape]
             raise OSError(n, os.strerror(n))
         if base.startswith(b'apperr_'):
             raise asyncssh.SFTPError(int(base[7:]), 'application error')
